@@ -10,62 +10,28 @@ Proof.
   rewrite (H a (or_introl eq_refl)), IH; [reflexivity|]. intros b Hb. apply H. right. assumption.
 Qed.
 
-(* the model implements the rule on every attribute list whose @group/@binding arguments are literals *)
-Theorem pairing_model_eq_spec_literal_args : forall attrs,
-  (forall a, In a attrs -> (aname a = "group" \/ aname a = "binding")%string -> exists r, aargs a = ALit :: r) ->
-  pairing_model attrs = pairing_spec attrs.
+(* the model implements the rule on every attribute list *)
+Theorem pairing_model_eq_spec : forall attrs, pairing_model attrs = pairing_spec attrs.
 Proof.
-  intros attrs H. unfold pairing_model, pairing_spec, has_group_model, has_binding_model, has_attr.
-  assert (Hg : existsb (sets_flag "group") attrs = existsb (fun a => String.eqb (aname a) "group") attrs).
-  { apply existsb_ext_in. intros a Ha. unfold sets_flag.
-    destruct (String.eqb_spec (aname a) "group") as [E|E]; [|reflexivity].
-    destruct (H a Ha (or_introl E)) as [r Hr]. rewrite Hr. reflexivity. }
-  assert (Hb : existsb (sets_flag "binding") attrs = existsb (fun a => String.eqb (aname a) "binding") attrs).
-  { apply existsb_ext_in. intros a Ha. unfold sets_flag.
-    destruct (String.eqb_spec (aname a) "binding") as [E|E]; [|reflexivity].
-    destruct (H a Ha (or_intror E)) as [r Hr]. rewrite Hr. reflexivity. }
-  rewrite Hg, Hb.
+  intros attrs. unfold pairing_model, pairing_spec, has_group_model, has_binding_model, has_attr, sets_flag.
   destruct (existsb (fun a => String.eqb (aname a) "group") attrs), (existsb (fun a => String.eqb (aname a) "binding") attrs); reflexivity.
 Qed.
 
-(* ... but not on all attribute lists: @group(G) with G a named constant is not seen at all *)
-Theorem pairing_refuted : exists attrs, pairing_spec attrs = true /\ pairing_model attrs = false.
-Proof. exists [{| aname := "group"; aargs := [AOther] |}]. split; reflexivity. Qed.
-
 (* ------------------------------------------------------------------ array size *)
-Theorem array_size_zero_rejected : array_size_model (Some 0) = SizeError.
-Proof. reflexivity. Qed.
+Theorem array_size_nonpositive_rejected : forall v, v <= 0 -> array_size_model (Some v) = SizeError.
+Proof. intros v H. unfold array_size_model. destruct (Z.leb_spec v 0); [reflexivity|lia]. Qed.
 
-Theorem array_size_error_iff_zero : forall v, int64 v -> (array_size_model (Some v) = SizeError <-> v = 0).
+Theorem array_size_error_iff_nonpositive : forall v, array_size_model (Some v) = SizeError <-> v <= 0.
 Proof.
-  intros v [Hlo Hhi]. unfold array_size_model, two63, two64 in *.
-  destruct (Z.eqb_spec (v mod 18446744073709551616) 0) as [E|E]; split; intros H; try reflexivity; try discriminate.
-  - destruct (Z_lt_le_dec v 0) as [Hn|Hp].
-    + assert (v mod 18446744073709551616 = v + 18446744073709551616).
-      { symmetry. apply (Z.mod_unique _ _ (-1)); lia. } lia.
-    + rewrite Z.mod_small in E by lia. assumption.
-  - subst v. cbn in E. contradiction.
+  intros v. unfold array_size_model. destruct (Z.leb_spec v 0); split; intros H0; try reflexivity; try lia; discriminate.
 Qed.
 
-Theorem array_size_positive_ok : forall v, 0 < v < two32 -> array_size_model (Some v) = array_size_spec v.
+(* equal to the rule for every count that fits the IR's uint32 *)
+Theorem array_size_model_eq_spec : forall v, v < two32 -> array_size_model (Some v) = array_size_spec v.
 Proof.
-  intros v [Hlo Hhi]. unfold array_size_model, array_size_spec, two32, two64 in *.
-  rewrite (Z.mod_small v 18446744073709551616) by lia.
-  destruct (Z.eqb_spec v 0); [lia|]. destruct (Z.leb_spec v 0); [lia|].
-  rewrite Z.mod_small by lia. reflexivity.
+  intros v H. unfold array_size_model, array_size_spec, two32 in *.
+  destruct (Z.leb_spec v 0); [reflexivity|]. rewrite Z.mod_small by lia. reflexivity.
 Qed.
-
-(* the model does NOT implement "non-positive sizes are errors": every negative int64 is accepted *)
-Theorem array_size_negative_accepted : forall v, int64 v -> v < 0 -> exists n, array_size_model (Some v) = SizeConst n.
-Proof.
-  intros v Hi Hn. destruct (array_size_model (Some v)) eqn:E.
-  - apply array_size_error_iff_zero in E; [lia|assumption].
-  - eexists; reflexivity.
-  - unfold array_size_model in E. destruct (_ =? 0); discriminate.
-Qed.
-
-Theorem array_size_refuted : exists v, int64 v /\ array_size_spec v = SizeError /\ array_size_model (Some v) = SizeConst 4294967295.
-Proof. exists (-1). unfold int64, two63. repeat split; try lia; reflexivity. Qed.
 
 (* ------------------------------------------------------------------ workgroup size *)
 Theorem wg_model_spec : forall names,
